@@ -127,6 +127,12 @@ func (u *Unit) safetyTags() []string { return []string{"C08"} }
 func (u *Unit) execInstr(st *State, ins ssa.Instruction) {
 	switch x := ins.(type) {
 	case *ssa.DebugRef:
+		if obj, ok := x.Object().(*types.Var); ok && !x.IsAddr {
+			if st.dbg == nil {
+				st.dbg = map[string]ssa.Value{}
+			}
+			st.dbg[obj.Name()] = x.X
+		}
 		return
 	case *ssa.Alloc:
 		u.execAlloc(st, x)
